@@ -51,8 +51,8 @@ OUTSIDE = [
     "CBC (its answers are checked per instance in C05)",
     "genes other than those listed in bounds; support patterns other than the listed "
     "ones for shipped genes",
-    "read-out/de-duplication loop major.py:201-235 is covered by replays and by "
-    "C05-tee on the repo's test tables only",
+    "read-out loop major.py:201-235: decided on arbitrary feasible points for toy/GA/GB "
+    "(mode 'readout'); elsewhere by replays and the C05 tee",
 ]
 ASSUMPTIONS = [
     "candidates handed to solve_major_model come from _filter_alleles (public entry "
@@ -104,6 +104,11 @@ def configs(tier):
         for st in (gc_structs if tier == "thorough" else gc_structs[:2]):
             for mode in ("noise", "planted"):
                 c.append({"gene": "GC", "genome": genome, "cn": st, "mode": mode})
+    for g, st in (("toy", ["1", "1"]), ("GA", ["1", "1"]), ("GB", ["1", "1"]),
+                  ("toy", ["1", "4"])) + ((("GA", ["1", "5"]), ("toy", ["1", "1", "1"]))
+                                          if tier == "thorough" else ()):
+        for genome in ("hg19", "hg38"):
+            c.append({"gene": g, "genome": genome, "cn": st, "mode": "readout"})
     small = ["cyp2c19", "cyp2c9", "cyp3a5", "tpmt", "nudt15", "slco1b1"]
     if tier == "quick":
         for g in small[:2]:
@@ -199,6 +204,8 @@ def build_evidence(gene, cn_list, cfg):
 
 
 def run_config(cfg):
+    if cfg["mode"] == "readout":
+        return run_readout(cfg)
     res = new_result(cfg)
     gene = gengene.load(cfg["gene"], cfg["genome"])
     cn_list = list(cfg["cn"])
@@ -222,6 +229,87 @@ def run_config(cfg):
         check_path(eng, res, cfg, gene, cn_list, profile, counts, totals, xs, planted,
                    core_used, m, npaths)
     res["stats"] = {**dict(eng.stats), **res["stats"]}
+    return res
+
+
+def run_readout(cfg):
+    """
+    The enumeration read-out / de-duplication loop (major.py:201-235) on an arbitrary
+    feasible point of the model: solve() is a stub whose variable values are symbolic, so
+    the real loop forks on every binary it reads; the MajorSolution it builds must be the
+    decoded point (alleles with multiplicity, novel variants) with the solver's objective.
+    """
+    import aldy.major as major
+    import aldy.common
+
+    res = new_result(cfg)
+    gene = gengene.load(cfg["gene"], cfg["genome"])
+    cn_list = list(cfg["cn"])
+    profile = Profile("verif")
+    counts, totals, base, xs, planted, core_used = build_evidence(
+        gene, cn_list, {**cfg, "mode": "noise"})
+    cov = stagelib.SymCoverage(gene, profile, counts, totals)
+    cn_sol = CNSolution(gene, 0, cn_list)
+    eng = Engine(name="c02r", timeout_ms=120000)
+    tag = f"readout/{cfg['gene']}/{cfg['genome']}/{','.join(cn_list)}"
+    state = {}
+
+    def run():
+        aldy.common.json.clear()
+        with symx.install(oracle=symx.PointOracle(eng)) as inst:
+            r = major.estimate_major(gene, cov, cn_sol, "z3")
+            state["m"] = inst.models[-1] if inst.models else None
+            return r
+
+    n = 0
+    done = set()
+    for dec, pc, sols in eng.explore(run, base, max_paths=50000):
+        m = state["m"]
+        if m is None or not m.vars:
+            continue
+        st, mdl = eng.satisfiable([])
+        if st != "sat":
+            ob(res, f"{tag}: path model", "unknown")
+            continue
+        if not sols:
+            # infeasible for this support pattern: the stub reported no point
+            continue
+        n += 1
+        val = {v.raw: bool(symx.model_value(mdl, v.zv)) for v in m.vars if v.kind == "B"}
+        want_alleles = sorted(v[2:].rsplit("_", 1)[0] for v, b in val.items()
+                              if b and v.startswith("A_"))
+        want_novel = sorted(str(x) for x in core_used if val.get(f"N_{x}"))
+        good = len(sols) == 1
+        if good:
+            s = sols[0]
+            got_alleles = sorted(a.major for a, c in s.solution.items() for _ in range(c))
+            got_novel = sorted(str(x) for x in s.added)
+            good = (got_alleles == want_alleles and got_novel == want_novel
+                    and s.cn_solution is cn_sol and isinstance(s.score, S)
+                    and z3.eq(z3.simplify(s.score.t), z3.simplify(m.obj_z3())))
+        ob(res, f"{tag}: read-out builds exactly the decoded point (alleles with "
+                "multiplicity, novel variants, objective, structure)",
+           "holds" if good else "sat")
+        if not good and "readout" not in done:
+            # find evidence for which this very point is cheap, so that the real code
+            # reports it, and let the enumeration judge decide on the real output
+            fix = [(v.zv if val[v.raw] else z3.Not(v.zv)) for v in m.vars if v.kind == "B"]
+            named = [c.z3() for c in m.constrs if c.name and c.name[0] is not None]
+            if violation(eng, res, cfg, gene, cn_list, xs, totals,
+                         named + fix,  # (the exclusion cut added after the yield is unnamed)
+                         f"read-out of point alleles={want_alleles} novel={want_novel} "
+                         f"gives {[x._solution_nice() for x in sols]}", "readout",
+                         obj=m.obj_z3(),
+                         floor=(profile.major_novel + 0.1 * len(want_novel)
+                                if want_novel else 0.0)):
+                done.add("readout")
+    seen = {}
+    for v in res["violations"]:
+        seen.setdefault(v["key"], v)
+    res["violations"] = list(seen.values())
+    res["stats"] = {**dict(eng.stats), "readout_points": n}
+    res["obligations"] = [{"label": o["label"], "status": o["status"], "secs": 0}
+                          for o in res["obligations"]]
     return res
 
 
@@ -446,10 +534,11 @@ def encoding_subst(m, gene, cands, cnt, nn, F, carried, terms):
 
 
 def violation(eng, res, cfg, gene, cn_list, xs, totals, hyps, label, key, mdl=None,
-              obj=None):
+              obj=None, floor=0.0):
     """Concretise evidence (integer counts), replay on the real code, record."""
     tried = 0
-    bounds = [None] if obj is None or not hyps else [0, 0.3, 1, 3, 10, 30, None]
+    bounds = [None] if obj is None or not hyps else [
+        floor + b for b in (0.01, 0.3, 1, 3, 10, 30)] + [None]
     intc = [z3.IsInt(x) for x in xs.values()]
     # evidence that survives aldy's own threshold filters unchanged (tried first)
     friendly = []
